@@ -6,7 +6,7 @@ precedes serializer construction.  Well-formedness and round-trip equality are n
 import re
 
 from ..mir import MissingAnchor, sym_contains, norm
-from ..rules import render, aggregates, last_seg, bool_switches, must_pass, switch_edges, err_return_blocks
+from ..rules import render, aggregates, last_seg, bool_switches, must_pass, switch_edges, err_return_blocks, compares
 
 EXPLANATION = ("PAIR rule over the resolved MIR of the serializer: every (field, saved local) pair of the emitter state — a field of "
                "YamlSerializer copied into a named local, or replaced / taken through Option::replace / take, or bumped by a "
@@ -235,6 +235,86 @@ def run(ctx):
             ctx.check(bool(resets), "PAIR", "C13:HINT-RESET:serialize_key:%s" % fld, "`%s` is cleared for the new entry before the composite-key branch saves it" % fld,
                       "serialize_key saves `%s` around a composite key without having cleared it first: the hint left by the enclosing `- ` item is restored after the key and the entry's value (a block mapping) is indented one level too shallow" % fld, config, ctx.where(sk, b))
         ctx.floor("PAIR.hint-resets", nh, 2, config)
+        # SIBLING (dash emitters): every emitter that writes the `- ` marker of a block sequence element and then serializes
+        # the element stages the same two hints the sequence serializer stages — the dash's depth (after_dash_depth) and the
+        # inline-first hint (pending_inline_map) — so that a nested collection lays itself out relative to *that* dash; and
+        # the variant serializers that write `Variant:` position themselves by the same three cases (value position /
+        # after a dash / line start).  Ordinary tuple structs delegate to the sequence serializer.
+        dash_fns = []
+        for f in sorted(fx.fns.values(), key=lambda f: f.npath):
+            if not f.file.endswith("src/ser.rs"):
+                continue
+            for b, t in f.calls():
+                if last_seg(fx.callee_decl(t)) == "write_str" and len(t["args"]) > 1 and f.sym_operand(t["args"][1])[:2] == ("const", "- "):
+                    dash_fns.append((f, b))
+        ctx.floor("SIBLING.dash-emitters", len(dash_fns), 2, config)
+        for f, db in dash_fns:
+            ctx.saw(f)
+            nested = [b for b, t in f.calls() if t["f"].get("trait") == "serde::Serialize" and t["f"].get("name") == "serialize" and b in f.reachable([db])]
+            staged = {"after_dash_depth": [], "pending_inline_map": []}
+            for b, i, s_ in f.stmts():
+                if s_["k"] == "assign" and s_["p"]["pr"]:
+                    fld = ser_field(f, s_["p"])
+                    if fld in staged:
+                        v = f.sym_rvalue(s_["rv"])
+                        if (fld == "after_dash_depth" and v[0] == "aggr" and v[2] == "Some") or (fld == "pending_inline_map" and v == ("const", True, "bool")):
+                            staged[fld].append(b)
+            for fld, bl in staged.items():
+                okh = bool(nested) and all(any(b2 in f.reachable([db]) and (f.dominates(b2, nb) or b2 == nb) for b2 in bl) for nb in nested)
+                ctx.check(okh, "SIBLING", "C13:SIBLING:dash-emitter:%s:%s" % (f.npath.split(" as ")[0].strip("<").split("::")[-1], fld), "after writing `- ` the emitter stages `%s` before serializing the element" % fld,
+                          "%s writes `- ` and serializes the element without staging `%s` (the sequence serializer does): a nested collection is indented from the wrong base and the document does not read back" % (f.npath, fld), config, ctx.where(f, db))
+        ts = fx.fn("<&mut ser::YamlSerializer as serde::Serializer>::serialize_tuple_struct")
+        ctx.saw(ts)
+        ctx.check(any(fx.callee(t).endswith("::serialize_seq") for b, t in ts.calls()), "SIBLING", "C13:SIBLING:tuple-struct-delegates", "ordinary tuple structs are laid out by serialize_seq",
+                  "serialize_tuple_struct no longer delegates ordinary tuple structs to the sequence layout", config, ctx.where(ts))
+        sv = fx.fn("<&mut ser::YamlSerializer as serde::Serializer>::serialize_struct_variant")
+        tv = fx.fn("<&mut ser::YamlSerializer as serde::Serializer>::serialize_tuple_variant")
+        for f in (sv, tv):
+            ctx.saw(f)
+            reads = set()
+            for b in sorted(f.live_blocks):
+                t = f.blocks[b]["term"]
+                if t["k"] == "switch":
+                    with f.deep():
+                        r = render(f.sym_operand(t["o"]))
+                    for fld in ("pending_space_after_colon", "after_dash_depth", "at_line_start"):
+                        if fld in r:
+                            reads.add(fld)
+            for b, t in f.calls():
+                with f.deep():
+                    r = " ".join(render(f.sym_operand(a)) for a in t["args"])
+                for fld in ("after_dash_depth", "current_map_depth"):
+                    if fld in r:
+                        reads.add(fld)
+            need = {"pending_space_after_colon", "after_dash_depth", "at_line_start", "current_map_depth"}
+            ctx.check(need <= reads, "SIBLING", "C13:SIBLING:variant-position:%s" % f.name, "`Variant:` is positioned by value position / after-dash / line start (reads %s)" % sorted(reads),
+                      "%s does not consider %s when positioning the variant's body (its sibling does): the body is indented from the wrong base in that position" % (f.name, sorted(need - reads)), config, ctx.where(f))
+        # ALIGN: the `- ` marker is two columns wide, while the lines that continue the element's node are indented by
+        # indent_step * depth.  The two agree only when the step is 2, so either the options restrict the step to 2 or the
+        # marker / continuation arithmetic must use the same unit.
+        cons = fx.fn("serializer_options::SerializerOptions::consistent")
+        ctx.saw(cons)
+        step2 = False
+        for c in compares(cons):
+            if "indent_step" in c["rl"] + c["rr"] and "2" in (c["rl"], c["rr"]) and c["op"] in ("Ne", "Eq"):
+                step2 = True
+        for f, db in dash_fns:
+            nm = f.npath.split(" as ")[0].strip("<").split("::")[-1]
+            uses_step = any(fx.callee(t).endswith("::write_indent") for b, t in f.calls())
+            ctx.check(step2 or not uses_step, "ALIGN", "C13:ALIGN:dash-marker-width-vs-indent-step:%s" % nm, "marker width and indentation unit agree (indent_step restricted to 2)",
+                      "%s writes the two-column marker `- ` while continuation lines are indented by indent_step * depth, and SerializerOptions::consistent() accepts any step >= 1: with a step other than 2 nested collections after a dash are mis-aligned (e.g. step 4: `- - 1\\n    - 2`)" % nm, config, ctx.where(f, db))
+        # EMPTY: an empty collection is written as a token on every path; writing nothing makes it a null
+        for name, tok in (("<ser::SeqSer as serde::ser::SerializeSeq>::end", "[]"), ("<ser::MapSer as serde::ser::SerializeMap>::end", "{}")):
+            f = fx.fn(name)
+            ctx.saw(f)
+            toks = [b for b, t in f.calls() if last_seg(fx.callee_decl(t)) == "write_str" and len(t["args"]) > 1 and f.sym_operand(t["args"][1])[:2] == ("const", tok)]
+            sw = [(sb, tt, ff) for sb, sym, tt, ff in bool_switches(f) if render(sym).endswith(".empty_as_braces")]
+            nm = name.split(" as ")[0].strip("<").split("::")[-1]
+            if not ctx.check(bool(sw) and bool(toks), "EMPTY", "C13:EMPTY:%s:anchor" % nm, "empty-collection branch found", "cannot find the empty_as_braces branch / the `%s` token in %s" % (tok, name), config, ctx.where(f)):
+                continue
+            sb, tt, ff = sw[0]
+            ctx.check(must_pass(f, [ff], toks), "EMPTY", "C13:EMPTY:%s:legacy-writes-nothing" % nm, "an empty collection is written as `%s` under every option" % tok,
+                      "with empty_as_braces = false %s writes nothing for an empty collection: the node reads back as null, so Option<Vec<_>> / Option<Map> holding an empty collection comes back as None (and an untyped target sees null)" % nm, config, ctx.where(f, sb))
         # option validation precedes serializer construction
         for name in ("to_fmt_writer_with_options", "to_io_writer_with_options"):
             f = fx.fn(name)
